@@ -2,5 +2,7 @@ SPECIFICATION Spec
 CONSTANTS
   MaxBurst = 9
   TwoBitFrames = {3, 7}
+  EmitEvery = 11
 INVARIANT NeverOk
+CONSTRAINT EmitCases
 CHECK_DEADLOCK FALSE
